@@ -136,6 +136,8 @@ pub struct RunOpts {
     pub jitter: u64,
     /// supply a draw-counting generator (same stream as the default one) and a log configuration
     pub counting_rng: bool,
+    /// evaluators registered under the default identifier AND under A (both real)
+    pub eval_both: bool,
     pub log_config: bool,
     /// > 0: a log rule whose trigger is `LessThanN::iterations(log_lt)` ("log only the first passes")
     pub log_lt: u32,
@@ -292,6 +294,7 @@ where
     let log_config = opts.log_config;
     let log_lt = opts.log_lt;
     let eval_id_a = opts.eval_id_a;
+    let eval_both = opts.eval_both;
     let body = || {
         config.optimize_with(problem, |state| {
             if counting {
@@ -299,7 +302,10 @@ where
             } else {
                 state.insert(Random::new(seed));
             }
-            if eval_id_a {
+            if eval_both {
+                state.insert_evaluator_as::<mahf::identifier::A>(Sequential::<P>::new());
+                state.insert_evaluator(Sequential::<P>::new());
+            } else if eval_id_a {
                 // the configuration asks for identifier A everywhere; whoever uses the default evaluator gets poison
                 state.insert_evaluator_as::<mahf::identifier::A>(Sequential::<P>::new());
                 state.insert_evaluator(Poison::<P>(std::marker::PhantomData));
@@ -699,6 +705,74 @@ where
             // the evaluation budget is left during the first two passes only; the run then lasts max(n, 2) passes
             LessThanN::evaluations(2 * u(p, "num_particles") + 1) | LessThanN::iterations(n),
         ),
+        // C18: a second swarm under identifier A (built with the `new_with_id` constructors) in a scope, after a first phase
+        // with the default identifier; a swarm whose repair step runs a scoped inner loop with its own LessThanN; a swarm
+        // started after another phase has filled the best-individual memory from a different population
+        "real_pso@AG" | "real_pso|scoped" | "real_pso|phase2" => {
+            use mahf::components::{boundary, mapping, swarm::pso as sp};
+            use mahf::identifier::A;
+            use mahf::lens::ValueOf;
+            use mahf::state::common::{Iterations, Progress};
+            let (np, sw, ew) = (u(p, "num_particles"), f(p, "start_weight"), f(p, "end_weight"));
+            let (c1, c2, vm) = (f(p, "c_one"), f(p, "c_two"), f(p, "v_max"));
+            let mk = || pso::RealProblemParameters { num_particles: np, start_weight: sw, end_weight: ew, c_one: c1, c_two: c2, v_max: vm };
+            match name {
+                "real_pso@AG" => {
+                    let first = pso::real_pso::<P>(mk(), cond())?.into_inner();
+                    let second = pso::pso::<P, A>(
+                        pso::Parameters {
+                            particle_init: sp::ParticleSwarmInit::<A>::new_with_id(vm)?,
+                            particle_update: sp::ParticleVelocitiesUpdate::<A>::new_with_id(sw, c1, c2, vm)?,
+                            constraints: boundary::Saturation::new(),
+                            inertia_weight_update: Some(mapping::Linear::new(
+                                sw,
+                                ew,
+                                ValueOf::<Progress<ValueOf<Iterations>>>::new(),
+                                ValueOf::<sp::InertiaWeight<sp::ParticleVelocitiesUpdate<A>>>::new(),
+                            )),
+                            state_update: sp::ParticleSwarmUpdate::<A>::new_with_id(),
+                        },
+                        cond(),
+                    );
+                    Ok(Configuration::builder()
+                        .do_(first)
+                        .scope_(|b| b.do_(initialization::RandomSpread::new(np)).evaluate_with::<A>().update_best_individual().do_(second))
+                        .build())
+                }
+                "real_pso|scoped" => {
+                    // the repair step is followed by a scoped refinement loop that has its own iteration bound
+                    let inner = Configuration::builder()
+                        .scope_(|b| b.while_(LessThanN::iterations(3), |b| b.do_(boundary::Saturation::new())))
+                        .build_component();
+                    let body = pso::pso::<P, mahf::identifier::Global>(
+                        pso::Parameters {
+                            particle_init: sp::ParticleSwarmInit::new(vm)?,
+                            particle_update: sp::ParticleVelocitiesUpdate::new(sw, c1, c2, vm)?,
+                            constraints: Configuration::builder().do_(boundary::Saturation::new()).do_(inner).build_component(),
+                            inertia_weight_update: Some(mapping::Linear::new(
+                                sw,
+                                ew,
+                                ValueOf::<Progress<ValueOf<Iterations>>>::new(),
+                                ValueOf::<sp::InertiaWeight<sp::ParticleVelocitiesUpdate>>::new(),
+                            )),
+                            state_update: sp::ParticleSwarmUpdate::new(),
+                        },
+                        cond(),
+                    );
+                    Ok(Configuration::builder().do_(initialization::RandomSpread::new(np)).evaluate().update_best_individual().do_(body).build())
+                }
+                _ => {
+                    // an earlier phase samples many points and records the best of them; the swarm starts afterwards
+                    let swarm = pso::real_pso::<P>(mk(), cond())?.into_inner();
+                    Ok(Configuration::builder()
+                        .do_(initialization::RandomSpread::new(40))
+                        .evaluate()
+                        .update_best_individual()
+                        .do_(swarm)
+                        .build())
+                }
+            }
+        }
         "real_pso" => pso::real_pso(
             pso::RealProblemParameters { num_particles: u(p, "num_particles"), start_weight: f(p, "start_weight"), end_weight: f(p, "end_weight"), c_one: f(p, "c_one"), c_two: f(p, "c_two"), v_max: f(p, "v_max") },
             cond(),
@@ -877,7 +951,7 @@ pub fn run_spec(out: &mut Out, run: u64, spec: &Value) {
                 }
                 Ok(Ok(config)) => {
                     header["ctor"] = json!("ok");
-                    let o = observe_with(&config, &problem, seed, extra, &RunOpts { parallel, eval_id_a: name.ends_with("@A"),
+                    let o = observe_with(&config, &problem, seed, extra, &RunOpts { parallel, eval_id_a: name.ends_with("@A"), eval_both: name.ends_with("@AG"),
                                                                                    log_lt: if name.ends_with("|log4") { 4 } else { 0 }, ..Default::default() });
                     header["tree"] = o.tree.clone();
                     let values = problem.stats().values.lock().unwrap().clone();
